@@ -22,7 +22,8 @@ open FxVerif.Gen.C15 FxVerif.Model.C15 FxVerif.Proofs.C15
 
 /-! ## specification-side definitions (independent of the Gen-driven choice points) -/
 
-/-- the proposal's message type: the type url of its (first) message -/
+/-- the proposal's message type: the type url of its (first) message — of the message itself, also when that is a
+`MsgExecLegacyContent` wrapping a v1beta1 content (custom parameters are configured per message type url) -/
 def typeOf (msgs : List Msg) : Ty := match msgs with | [] => [] | m :: _ => m.ty
 
 /-- voting period configured for a message type at this moment -/
@@ -239,8 +240,8 @@ theorem activation_period_by_type (s : State) (p : Proposal) :
   have h1 : activationUsesCustomPeriod = true := rfl
   have h2 : customPeriodLookupOk = true := rfl
   have h3 : activationDefaultByExpedited = true := rfl
-  have h4 : propTypeIsMessageUrl = true := rfl
-  have ht : propType p.msgs = typeOf p.msgs := by cases h : p.msgs <;> simp [propType, typeOf, h4]
+  have h4 : periodLookupType = "first-message-url" := rfl
+  have ht : propTypeP p.msgs = typeOf p.msgs := by cases h : p.msgs <;> simp [propTypeP, typeUrlBy, typeOf, h4]
   simp only [activationPeriod, specPeriod, h1, h2, h3, ht, Bool.and_self, if_true, Bool.true_and]
   cases getCustom s.custom (typeOf p.msgs) <;> cases p.expedited <;> simp
 
@@ -248,16 +249,16 @@ theorem conversion_period_by_type (s : State) (p : Proposal) :
     conversionPeriod s p = specPeriod s.params s.custom p.msgs false := by
   have h1 : conversionUsesCustomPeriod = true := rfl
   have h2 : customPeriodLookupOk = true := rfl
-  have h4 : propTypeIsMessageUrl = true := rfl
-  have ht : propType p.msgs = typeOf p.msgs := by cases h : p.msgs <;> simp [propType, typeOf, h4]
+  have h4 : periodLookupType = "first-message-url" := rfl
+  have ht : propTypeP p.msgs = typeOf p.msgs := by cases h : p.msgs <;> simp [propTypeP, typeUrlBy, typeOf, h4]
   simp only [conversionPeriod, specPeriod, h1, h2, ht, Bool.and_self, if_true]
   cases getCustom s.custom (typeOf p.msgs) <;> simp
 
 theorem tally_quorum_by_type (s : State) (p : Proposal) : quorumFor s p = specQuorum s.params s.custom p.msgs := by
   have h1 : tallyQuorumByType = true := rfl
   have h2 : customQuorumLookupOk = true := rfl
-  have h4 : propTypeIsMessageUrl = true := rfl
-  have ht : propType p.msgs = typeOf p.msgs := by cases h : p.msgs <;> simp [propType, typeOf, h4]
+  have h4 : quorumLookupType = "first-message-url" := rfl
+  have ht : propTypeQ p.msgs = typeOf p.msgs := by cases h : p.msgs <;> simp [propTypeQ, typeUrlBy, typeOf, h4]
   simp only [quorumFor, specQuorum, h1, h2, ht, Bool.and_self, if_true]
   rfl
 
@@ -358,6 +359,7 @@ theorem period_and_quorum_by_type (s : State) (p : Proposal) (n : Nums) (pid : N
   · intro hp hexp h
     have hpid : p.id = pid := findProp_id hp
     unfold finishTally at h
+    simp only [show settleShapeOk = true from rfl, Bool.not_true, Bool.false_and, Bool.false_eq_true, if_false] at h
     simp only [show settleShapeOk = true from rfl, hexp, if_true, Bool.not_false, Bool.and_self, Bool.not_true,
       Bool.false_eq_true, if_false] at h
     cases h
@@ -389,13 +391,23 @@ theorem single_type (s s' : State) (who : Addr) (msgs : List Msg) (initial : Nat
 
 /-! ## all or nothing -/
 
-/-- the messages of a passed proposal run on a cache: if one handler fails, the state is exactly the state before the
-first message (none of the earlier messages' writes remain); otherwise all of them took effect in order -/
+/-- the messages of a passed proposal run on a cache, and the test that decides on `writeCache()` sees the error of the
+handler that failed (regenerated: the loop ASSIGNS `err`): if one handler fails, the state is exactly the state before
+the first message (none of the earlier messages' writes remain) and the proposal is FAILED; otherwise all of them took
+effect in order -/
 theorem messages_all_or_nothing (msgs : List Msg) (s : State) :
     ((runProposalMsgs msgs s).2 = false → (runProposalMsgs msgs s).1 = s) ∧
     ((runProposalMsgs msgs s).2 = true → execMsgs msgs s = some (runProposalMsgs msgs s).1) := by
   unfold runProposalMsgs
-  simp only [show execInCacheCtx = true from rfl, if_true]
+  simp only [show execInCacheCtx = true from rfl, show execErrVisible = true from rfl, if_true]
+  cases h : execMsgs msgs s <;> simp
+
+/-- a proposal is PASSED exactly when every one of its messages succeeded (in order, each on the state the previous ones
+left), otherwise FAILED: the status the end-blocker stores is `if ok then passed else failed` with this `ok` -/
+theorem passed_iff_every_message_succeeded (msgs : List Msg) (s : State) :
+    (runProposalMsgs msgs s).2 = true ↔ ∃ s', execMsgs msgs s = some s' := by
+  unfold runProposalMsgs
+  simp only [show execInCacheCtx = true from rfl, show execErrVisible = true from rfl, if_true]
   cases h : execMsgs msgs s <;> simp
 
 /-! ## gov half of C07: the end-blocker does not fail on refunds / burns -/
@@ -421,6 +433,7 @@ theorem gov_endblock_finish_total (ops : List Op) (pid : Nat) (p : Proposal) (pa
   intro s _
   have hi : Inv s := run_inv rfl rfl rfl ops init init_inv
   unfold finishTally
+  simp only [show settleShapeOk = true from rfl, Bool.not_true, Bool.false_and, Bool.false_eq_true, if_false]
   simp only [show settleShapeOk = true from rfl, if_true]
   by_cases hk : (p.expedited && !passes) = true
   · simp only [hk, Bool.not_true, Bool.false_eq_true, if_false]
@@ -477,6 +490,7 @@ theorem gov_endblock_active_total (ops : List Op) (hok : historyOk ops) (pid : N
       ∃ s', finishTally passes burn (n.yes / DEC, n.abstain / DEC, n.no / DEC, n.veto / DEC) p pid s0 = .ok s' := by
     intro s0 hb
     unfold finishTally
+    simp only [show settleShapeOk = true from rfl, Bool.not_true, Bool.false_and, Bool.false_eq_true, if_false]
     simp only [show settleShapeOk = true from rfl, if_true]
     by_cases hk : (p.expedited && !passes) = true
     · simp only [hk, Bool.not_true, Bool.false_eq_true, if_false]
@@ -572,6 +586,7 @@ theorem tally_consumes_votes (stk : Staking) (pid : Nat) (s s' : State) (h : tal
         simp only [show tallyRemovesVotes = true from rfl, if_true] at h
         have hv : s'.votes = votesNot s.votes pid := by
           unfold finishTally at h
+          simp only [show settleShapeOk = true from rfl, Bool.not_true, Bool.false_and, Bool.false_eq_true, if_false] at h
           simp only [show settleShapeOk = true from rfl, if_true] at h
           have settle : ∀ s1 : State,
               (if (!(p.expedited && !passes)) = true then (if burn = true then burnDeposits pid { s with votes := votesNot s.votes pid }
@@ -602,12 +617,7 @@ theorem tally_consumes_votes (stk : Staking) (pid : Nat) (s s' : State) (h : tal
               have : s3.votes = s1.votes := by
                 have e3 : s3 = (runProposalMsgs p.msgs { s1 with active := removeQ (p.votingEnd, pid) s1.active }).1 := by rw [hr']
                 rw [e3]
-                unfold runProposalMsgs
-                simp only [show execInCacheCtx = true from rfl, if_true]
-                split
-                · rename_i sx hx2
-                  exact (execMsgs_frame _ _ _ hx2).2.2.2.2.2.2.2.2
-                · rfl
+                exact (runProposalMsgs_same rfl p.msgs { s1 with active := removeQ (p.votingEnd, pid) s1.active }).2.2.2.2.2.2.2.2
               show s3.votes = _
               rw [this, e1]
             · split at h <;> (cases h; exact e1)
@@ -683,8 +693,15 @@ theorem min_deposit_over_sum_of_spends (s : State) (p : Proposal) (who : Addr) (
 /-! ## non-vacuity -/
 
 def egf : Ty := egfUrl.toList
-def spend (fx other : Nat) : Msg := ⟨egf, true, true, .credit fx other 1⟩
-def toggle : Msg := ⟨"/fx.erc20.v1.MsgToggleTokenConversion".toList, true, true, .noop⟩
+def spend (fx other : Nat) : Msg := ⟨egf, true, true, .credit fx other 1, []⟩
+def toggle : Msg := ⟨"/fx.erc20.v1.MsgToggleTokenConversion".toList, true, true, .noop, []⟩
+/-- a legacy text proposal: the message is a `MsgExecLegacyContent`; custom parameters for the wrapped content's type
+url do not apply to it -/
+def legacyText : Msg := ⟨legacyUrl.toList, true, true, .noop, "/cosmos.gov.v1beta1.TextProposal".toList⟩
+example : specPeriod {} [("/cosmos.gov.v1beta1.TextProposal".toList, ⟨0, 45, 0⟩), (legacyUrl.toList, ⟨0, 25, 0⟩)] [legacyText] false = 25 ∧
+    activationPeriod { custom := [("/cosmos.gov.v1beta1.TextProposal".toList, ⟨0, 45, 0⟩), (legacyUrl.toList, ⟨0, 25, 0⟩)] }
+      { id := 1, msgs := [legacyText], proposer := 0, status := .deposit, total := 0, depositEnd := 0, votingStart := 0,
+        votingEnd := 0, expedited := false } = 25 := by decide
 /-- three validators (operators 100, 101, 102) with 100 tokens each; account 0 holds half of validator 100's shares -/
 def demoStk : Staking :=
   { vals := [⟨100, 200, 200 * DEC⟩, ⟨101, 100, 100 * DEC⟩, ⟨102, 100, 100 * DEC⟩],
@@ -724,10 +741,10 @@ example : specMin (run init demoOps).custom 1000 [spend 20000 0] = 2000 ∧ spec
   decide
 
 example : ∃ s', submit init 0 [spend 1 0, spend 2 0] 0 false = .ok s' := ⟨_, rfl⟩
-example : (step init (.submit 0 [spend 1 0, ⟨"/fx.gov.v1.MsgUpdateStore".toList, true, true, .noop⟩] 0 false)).2 = "err:type" := by decide
+example : (step init (.submit 0 [spend 1 0, ⟨"/fx.gov.v1.MsgUpdateStore".toList, true, true, .noop, []⟩] 0 false)).2 = "err:type" := by decide
 
-example : (runProposalMsgs [⟨[], true, true, .cas 0 0 5⟩, ⟨[], true, true, .cas 1 9 1⟩] init).2 = false ∧
-    (runProposalMsgs [⟨[], true, true, .cas 0 0 5⟩, ⟨[], true, true, .cas 1 9 1⟩] init).1.kv = [] ∧
-    (execMsg ⟨[], true, true, .cas 0 0 5⟩ init).map (·.kv) = some [(0, 5)] := by decide
+example : (runProposalMsgs [⟨[], true, true, .cas 0 0 5, []⟩, ⟨[], true, true, .cas 1 9 1, []⟩] init).2 = false ∧
+    (runProposalMsgs [⟨[], true, true, .cas 0 0 5, []⟩, ⟨[], true, true, .cas 1 9 1, []⟩] init).1.kv = [] ∧
+    (execMsg ⟨[], true, true, .cas 0 0 5, []⟩ init).map (·.kv) = some [(0, 5)] := by decide
 
 end FxVerif.Props.C15
